@@ -110,6 +110,15 @@ async def submitter(ctx, w, idx, user, st, batch_ref=None):
                 log.add(name, 'cancelled_batch', b.id)
             except Exception:  # pylint: disable=broad-except
                 pass
+    if batch_ref is None and s.draw(5) == 0:
+        # the owner deletes the batch once everything is submitted: retransmitted copies of its create / update
+        # requests that arrive afterwards (late_duplicate) must still be recognised by their tokens
+        try:
+            await b.delete()
+            log.add(name, 'deleted_batch', b.id)
+            ctx.probe('batch_deleted_by_owner')
+        except Exception:  # pylint: disable=broad-except
+            pass
 
 
 def check_state(w, fail):
@@ -172,7 +181,8 @@ def run(ctx):
         await w.start(loop)
         s = ctx.stream('plan')
         rate = (0.05, 0.1, 0.15)[s.draw(3)]
-        w.net.rates.update({k: rate for k in ('drop_request', 'drop_response', 'duplicate') if s.draw(3)})
+        w.net.rates.update({k: rate for k in ('drop_request', 'drop_response', 'duplicate', 'late_duplicate')
+                            if s.draw(3)})
         if s.draw(2):
             w.db_fault_rates = {k: v for k, v in {'deadlock': 0.01, 'lost_conn': 0.005, 'lost_conn_after': 0.005,
                                                   'lost_conn_after_commit': 0.01, 'lost_conn_before_commit': 0.01}.items()
